@@ -35,6 +35,8 @@ def _cdrfile_common(ctx, res, replay_ops, want_spec):
     for i, (op, im, mo) in enumerate(zip(r.ops, r.impl, r.model)):
         t = op.split()
         kind = t[1]
+        if kind == "slowdb":
+            continue
         if kind != "rt":
             # outside the property's domain (non-well-formed structures, damaged files):
             # model fidelity is reported, it does not decide the property
@@ -394,11 +396,15 @@ def explore_c01(ctx, res, replay_ops=None):
     n = n_for(ctx, 600, 6000)
     r = chf_run(ctx, res, n, replay_ops)
     prev = None
+    last_reserved = {}
     for i, (op, im, mo) in enumerate(zip(r.ops, r.impl, r.model)):
         t = op.split()
         kind = t[1]
+        if kind == "slowdb":
+            continue
         if kind == "reset":
             prev = None
+            last_reserved = {}
             continue
         if kind in ("acct", "end"):
             # account (re)definition: totals are re-based
@@ -406,7 +412,8 @@ def explore_c01(ctx, res, replay_ops=None):
             if kind == "acct" and prev is not None:
                 prev = dict(prev)
                 try:
-                    prev[(t[2], int(t[3]))] = int(bytes.fromhex(t[4]).decode())
+                    # the balance is replaced in the database; what the CHF still holds in reserve stays held
+                    prev[(t[2], int(t[3]))] = int(bytes.fromhex(t[4]).decode()) + last_reserved.get((t[2], int(t[3])), 0)
                 except Exception:
                     prev.pop((t[2], int(t[3])), None)
             elif kind == "acct":
@@ -431,6 +438,7 @@ def explore_c01(ctx, res, replay_ops=None):
             prev = None
             continue
         cur = o.totals()
+        last_reserved = o.reserved()
         if a.get("ok") != "1":
             res.outside_domain["not-in-quantifier(opOKb=0)"] += 1
             prev = cur
@@ -507,10 +515,13 @@ def explore_c06(ctx, res, replay_ops=None):
     for i, (op, im, mo) in enumerate(zip(r.ops, r.impl, r.model)):
         t = op.split()
         kind = t[1]
+        if kind == "slowdb":
+            continue
         if kind == "reset":
             hist_ok, sess_ok, sess_grant, rg_sessions, cost, prev, negative_seen = True, True, {}, {}, {}, None, set()
             continue
         if kind == "acct":
+            prev = None     # the balance (and possibly the tariff) is replaced behind the API: re-base on the next observation
             try:
                 cost[(t[2], int(t[3]))] = int(bytes.fromhex(t[5]).decode())
                 if int(bytes.fromhex(t[4]).decode()) < 0:
@@ -625,6 +636,8 @@ def explore_c12(ctx, res, replay_ops=None):
     for i, (op, im, mo) in enumerate(zip(r.ops, r.impl, r.model)):
         t = op.split()
         kind = t[1]
+        if kind == "slowdb":
+            continue
         if kind == "reset":
             prev_state, known, uri = None, {}, {}
             continue
@@ -718,6 +731,8 @@ def explore_c10(ctx, res, replay_ops=None):
     for i, (op, im, mo) in enumerate(zip(r.ops, r.impl, r.model)):
         t = op.split()
         kind = t[1]
+        if kind == "slowdb":
+            continue
         if kind == "reset":
             live = {}
             continue
@@ -790,6 +805,8 @@ def explore_c02(ctx, res, replay_ops=None):
     for i, (op, im, mo) in enumerate(zip(r.ops, r.impl, r.model)):
         t = op.split()
         kind = t[1]
+        if kind == "slowdb":
+            continue
         if kind == "reset":
             expect, ident, released = {}, {}, set()
             continue
